@@ -127,10 +127,10 @@ def run_task(task, repo=None, max_paths=MAX_PATHS):
             ob.status, ob.backend, ob.reason, ob.time = "unknown", "z3", "not attempted: 5 earlier obligations of this task timed out", 0.0
         else:
             try:
-                discharge(ob, ctx.axioms, task.timeout_ms, witness=ctx.witness)
+                discharge(ob, ctx.axioms, task.timeout_ms, witness=ob.meta.get("_witness") or ctx.witness)
                 if ob.status == "refuted" and task.refine_axioms is not None:
                     t_abs = ob.time
-                    discharge(ob, list(ctx.axioms) + list(task.refine_axioms()), task.timeout_ms, witness=ctx.witness)
+                    discharge(ob, list(ctx.axioms) + list(task.refine_axioms()), task.timeout_ms, witness=ob.meta.get("_witness") or ctx.witness)
                     ob.time += t_abs
                     if ob.status == "unknown":
                         ob.reason = "refuted under the abstraction, undecided with the exact definition: " + str(ob.reason)
